@@ -338,10 +338,10 @@ def load_known():
         return json.load(f).get('findings', [])
 
 
-def write_replay(prop, v):
+def write_replay(prop, v, tier='thorough'):
     d = os.path.join(os.environ.get('MCV_REPLAY_DIR') or os.path.join(VERIF_DIR, 'replays'), prop)
     os.makedirs(d, exist_ok=True)
-    body = {'property': prop, 'family': v['family'], 'case': v['case'], 'sig': v['sig'],
+    body = {'property': prop, 'tier': tier, 'family': v['family'], 'case': v['case'], 'sig': v['sig'],
             'msg': v['msg'], 'expected': v.get('expected'), 'observed': v.get('observed'),
             'decoded': v.get('decoded')}
     h = hashlib.sha1(json.dumps([body['family'], body['case'], body['sig']],
@@ -443,7 +443,7 @@ def run_property(prop, tier, seed, only=None):
             if v['sig'] in seen_sigs:
                 continue
             seen_sigs.add(v['sig'])
-            path = write_replay(prop, v)
+            path = write_replay(prop, v, tier)
             confirm_deterministic(prop, path)
             print('VIOLATION property=%s replay=%s' % (prop, path))
             print('  family=%s sig=%s\n  %s\n  case=%s' % (v['family'], v['sig'], v['msg'],
